@@ -187,7 +187,7 @@ class ParameterList(object):
         elif key == "model.rel_tol":
             type_str, nonetype_ok, lower, upper = 'float', False, 0.0, 1.0
         elif key == "slow.history_for_slow":
-            type_str, nonetype_ok, lower, upper = 'int', False, 0, None
+            type_str, nonetype_ok, lower, upper = 'int', False, 1, None  # used as a divisor
         elif key == "slow.thresh_for_slow":
             type_str, nonetype_ok, lower, upper = 'float', False, 0, None
         elif key == "slow.max_slow_iters":
@@ -281,7 +281,7 @@ class ParameterList(object):
         elif key == "func_tol.tr_step":
             type_str, nonetype_ok, lower, upper = 'float', False, 0.0, 1.0
         elif key == "func_tol.max_iters":
-            type_str, nonetype_ok, lower, upper = 'int', False, 0, None
+            type_str, nonetype_ok, lower, upper = 'int', False, 1, None  # need at least one S-FISTA iteration
         elif key == "sfista.max_iters_scaling":
             type_str, nonetype_ok, lower, upper = 'float', False, 1.0, None
         else:
@@ -290,6 +290,14 @@ class ParameterList(object):
 
     def check_param(self, key, value, npt):
         type_str, nonetype_ok, lower, upper = self.param_type(key, npt)
+        # A few parameters make the algorithm ill-defined exactly at the end of their range (division by zero, or a
+        # radius that never shrinks so the main loop never ends), so that end is excluded
+        if key in ["restarts.rhoend_scale", "func_tol.criticality_measure"] and value is not None \
+                and isinstance(value, float) and value <= lower:
+            return False  # must be strictly positive
+        if key in ["tr_radius.alpha1", "func_tol.tr_step"] and value is not None \
+                and isinstance(value, float) and value >= upper:
+            return False  # must be strictly less than 1
         if type_str == 'int':
             return check_integer(value, lower=lower, upper=upper, allow_nonetype=nonetype_ok)
         elif type_str == 'float':
